@@ -76,6 +76,34 @@ impl ResourceNode {
     }
 }
 
+#[cfg(sentinel_verif)]
+#[doc(hidden)]
+impl ResourceNode {
+    /// (global sample count, global interval, default-metric sample count, default-metric interval)
+    pub fn verif_geometry(&self) -> (u32, u32, u32, u32) {
+        (
+            self.arr.sample_count(),
+            self.arr.interval_ms(),
+            self.metric.sample_count(),
+            self.metric.interval_ms(),
+        )
+    }
+
+    pub fn verif_global_array(&self) -> Arc<BucketLeapArray> {
+        self.arr.clone()
+    }
+
+    /// Back to the state of a freshly created node (used for the process-wide inbound node,
+    /// which cannot be re-created between explored sequences).
+    pub fn verif_reset(&self) {
+        for b in self.arr.verif_raw_slots() {
+            b.reset_start_stamp(0);
+            b.reset_value();
+        }
+        self.concurrency.store(0, Ordering::SeqCst);
+    }
+}
+
 impl MetricItemRetriever for ResourceNode {
     fn metrics_on_condition(&self, predicate: &TimePredicate) -> Vec<MetricItem> {
         self.metric.second_metrics_on_condition(predicate)
